@@ -9,7 +9,9 @@ import json
 
 from harness import core, lexer, tlc
 
-NEUTRAL = {"quoted-names", "placeholder", "boolean", "array", "interval", "string-value", "alias"}
+NEUTRAL = {"quoted-names", "placeholder", "boolean", "array", "interval", "string-value", "alias", "backslash-string", "json-value"}
+JSONVAL = {"k": 'q"r', "p\\": ["it's", 1]}
+STRINGS = {"string-value": ["it's"], "backslash-string": ["C:\\new\\t%_x"], "json-value": [json.dumps(JSONVAL)]}
 BOOLMARK = "1"
 
 
@@ -39,6 +41,10 @@ def innermost(Qi, elem):
         return q.where(t.b == "it's")
     if elem == "alias":
         return Qi.from_(t).select(t.a.as_("al one"))
+    if elem == "backslash-string":
+        return q.where(t.b == STRINGS[elem][0])
+    if elem == "json-value":
+        return q.where(t.b == JSONVAL)
     raise core.MachineryError(elem)
 
 
@@ -149,7 +155,7 @@ def run(tier: str) -> int:
                 break
         if not ok or not rs:
             continue
-        events.append({"tid": len(events), "r": [{k: v for k, v in x.items() if k != "_sql"} for x in rs], "boolmark": BOOLMARK, "aliases": ["gal", "al one"],
+        events.append({"tid": len(events), "r": [{k: v for k, v in x.items() if k != "_sql"} for x in rs], "boolmark": BOOLMARK, "aliases": ["gal", "al one"], "strings": STRINGS.get(p["elem"], []),
                        "neutral": p["elem"] in NEUTRAL and not any(c.startswith("setop") for c in p["nest"])})
         meta.append((p, rs))
     results = tlc.judge_shards("J_C08", "INIT Init\nNEXT Next\n", events, shard=max(40, len(events) // 16 + 1), heap="3g", timeout=3000)
@@ -171,8 +177,13 @@ def run(tier: str) -> int:
                             {"dialect": d, "built": mode, "element": p["elem"], "nesting": p["nest"], "sql": sql[(d, mode)]},
                             what=f"convention '{conv}' of {d} is not followed inside {nestk}")
         for d, _ in sorted(v["mixed"]):
-            rep.discrepancy([[d, "mixed-differs", p["elem"], p["nest"][0]], [d, "mixed-differs", p["elem"], nestk]],
-                            {"dialect": d, "element": p["elem"], "nesting": p["nest"], "native": sql[(d, "native")], "mixed": sql[(d, "mixed")]},
+            # what differs: only the brackets around set operands (their own, class-based, convention) or the tokens themselves
+            strip = lambda text: [(t["t"], t["v"]) for t in lexer.lex(text, "sqlite" if d == "mssql" else core.lex_dialect(d)) if t["v"] not in ("(", ")")]  # noqa: E731
+            if any(c.startswith("setop") for c in p["nest"]) and strip(sql[(d, "native")]) == strip(sql[(d, "mixed")]):
+                sigs = [[d, "mixed-differs", "set-operand-brackets-only"]]
+            else:
+                sigs = [[d, "mixed-differs", p["elem"], p["nest"][0]], [d, "mixed-differs", p["elem"], nestk]]
+            rep.discrepancy(sigs, {"dialect": d, "element": p["elem"], "nesting": p["nest"], "native": sql[(d, "native")], "mixed": sql[(d, "mixed")]},
                             what="inner parts built with the generic classes render differently from parts built with the dialect's classes")
         for d1, d2 in sorted(v["pairs"]):
             rep.discrepancy([[d1, d2, "norm-differs", p["elem"], p["nest"][0]], [d1, d2, "norm-differs", p["elem"], nestk]],
